@@ -161,34 +161,10 @@ fn env_canary(exe: &str, set: Option<(&str, &str)>, unset: &[String]) -> Option<
 /// environment variable differs between two processes of the same program.
 fn env_leg(m: &mut Merged) -> Vec<Value> {
     let exe = std::env::current_exe().unwrap().to_string_lossy().to_string();
-    let trace = format!("{}/sim/work/getenv-trace.txt", verif_root());
-    let _ = std::fs::remove_file(&trace);
-    let st = Command::new("ltrace")
-        .args(["-x", "getenv", "-e", "", "-o", &trace, &exe, "envcanary"])
-        .stdin(Stdio::null())
-        .stdout(Stdio::null())
-        .stderr(Stdio::null())
-        .status();
-    let text = std::fs::read_to_string(&trace).unwrap_or_default();
-    let _ = std::fs::remove_file(&trace);
-    if st.is_err() || !text.contains("exited") {
-        return vec![json!({"leg": "environment", "status": "unavailable (ltrace could not trace the canary process)"})];
-    }
-    let mut names: Vec<String> = Vec::new();
-    for l in text.lines() {
-        if let Some(i) = l.find("getenv") {
-            if let Some(a) = l[i..].find("(\"") {
-                let rest = &l[i + a + 2..];
-                if let Some(b) = rest.find('"') {
-                    let n = rest[..b].to_string();
-                    if !n.is_empty() && !names.contains(&n) && n.chars().all(|c| c.is_ascii_alphanumeric() || c == '_') {
-                        names.push(n);
-                    }
-                }
-            }
-        }
-    }
-    names.truncate(40);
+    let names = match discover_env_names(&exe) {
+        Some(n) => n,
+        None => return vec![json!({"leg": "environment", "status": "unavailable (ltrace could not trace the canary process)"})],
+    };
     let base = match env_canary(&exe, None, &names) {
         Some(b) => b,
         None => return vec![json!({"leg": "environment", "status": "canary process failed"})],
@@ -225,6 +201,85 @@ fn env_leg(m: &mut Merged) -> Vec<Value> {
     }
     *m.stats.entry("environment_canary_processes".into()).or_insert(0) += tried + 1;
     vec![json!({"leg": "environment", "variables_read_by_the_process": names, "settings_tried": tried, "dependent": dependent})]
+}
+
+/// names of the environment variables a canary process of the library reads
+/// (traced getenv); None if tracing is unavailable
+fn discover_env_names(exe: &str) -> Option<Vec<String>> {
+    let trace = format!("{}/sim/work/getenv-trace-{}.txt", verif_root(), std::process::id());
+    let _ = std::fs::remove_file(&trace);
+    let st = Command::new("ltrace")
+        .args(["-x", "getenv", "-e", "", "-o", &trace, exe, "envcanary"])
+        .stdin(Stdio::null())
+        .stdout(Stdio::null())
+        .stderr(Stdio::null())
+        .status();
+    let text = std::fs::read_to_string(&trace).unwrap_or_default();
+    let _ = std::fs::remove_file(&trace);
+    if st.is_err() || !text.contains("exited") {
+        return None;
+    }
+    let mut names: Vec<String> = Vec::new();
+    for l in text.lines() {
+        if let Some(i) = l.find("getenv") {
+            if let Some(a) = l[i..].find("(\"") {
+                let rest = &l[i + a + 2..];
+                if let Some(b) = rest.find('"') {
+                    let n = rest[..b].to_string();
+                    if !n.is_empty() && !names.contains(&n) && n.chars().all(|c| c.is_ascii_alphanumeric() || c == '_') {
+                        names.push(n);
+                    }
+                }
+            }
+        }
+    }
+    names.truncate(20);
+    Some(names)
+}
+
+/// Environment leg for C05 / C16 / C18: for every environment variable the library
+/// is seen to read, a small batch of this property's own runs is executed by worker
+/// processes started with that variable set; their findings are merged in (the
+/// replay file carries the variable, `momsim replay` sets it before anything else).
+fn env_batch_leg(p: &dyn Property, thorough: bool, seed: u64, m: &mut Merged) -> Vec<Value> {
+    let exe = std::env::current_exe().unwrap().to_string_lossy().to_string();
+    let names = match discover_env_names(&exe) {
+        Some(n) => n,
+        None => return vec![json!({"leg": "environment", "status": "unavailable (ltrace could not trace the canary process)"})],
+    };
+    let mut batches = 0u64;
+    let mut hits: Vec<Value> = Vec::new();
+    let runs = match p.id() {
+        "C16" => 96,
+        "C05" => 2000,
+        _ => 1500,
+    };
+    for n in &names {
+        for v in ["1", "0", "true"] {
+            let label = format!("env-{}-{}", n, v);
+            let o = merge(spawn_workers(&exe, p.id(), thorough, seed, 8, runs, &[(n.as_str(), v.to_string())], &label));
+            batches += 1;
+            *m.stats.entry("environment_batch_runs".into()).or_insert(0) += o.runs;
+            if o.found_total > 0 {
+                hits.push(json!({"variable": n, "value": v, "findings": o.found_total}));
+                for (i, s, mut f) in o.found {
+                    f.class = format!("{}:with-environment-variable", f.class);
+                    if let Some(obj) = f.case.as_object_mut().filter(|o| o.contains_key("kind")) {
+                        obj.insert("env".into(), json!({n.as_str(): v}));
+                    } else {
+                        // cases without a kind (C16 enum cases) are wrapped
+                        f.case = json!({"kind": "with-env", "env": {n.as_str(): v}, "inner": f.case});
+                    }
+                    *m.found_per_class.entry(f.class.clone()).or_insert(0) += 1;
+                    m.found_total += 1;
+                    m.found.push((i, s, f));
+                }
+                break;
+            }
+        }
+    }
+    m.found.sort_by_key(|(i, _, _)| *i);
+    vec![json!({"leg": "environment", "variables_read_by_the_process": names, "batches": batches, "with_findings": hits})]
 }
 
 /// Miri leg (C17): plain std threads and plain f64 sharing one sampler (or using
@@ -467,6 +522,8 @@ pub fn check(p: &dyn Property, thorough: bool, meta: Meta) -> i32 {
     if p.id() == "C17" {
         legs.extend(miri_leg(thorough, seed, &mut m));
         legs.extend(env_leg(&mut m));
+    } else {
+        legs.extend(env_batch_leg(p, thorough, seed, &mut m));
     }
     if let Ok(path) = std::env::var("VERIF_DUMP_FOUND") {
         let _ = write_json(&path, &m.found);
@@ -516,7 +573,8 @@ pub fn check(p: &dyn Property, thorough: bool, meta: Meta) -> i32 {
         let (idx, rseed, first) = (cand.0, cand.1, &cand.2);
         let os_variant = first.case.get("variant").map(|v| v == "os").unwrap_or(false);
         let vexe = if os_variant { std::env::var("MOMSIM_OS_EXE").unwrap_or(exe.clone()) } else { exe.clone() };
-        let min = if os_variant || first.case["kind"] == "miri" || first.case["kind"] == "env" { first.clone() } else { p.minimise(first) };
+        let has_env = first.case.get("env").is_some();
+        let min = if os_variant || has_env || first.case["kind"] == "miri" || first.case["kind"] == "env" { first.clone() } else { p.minimise(first) };
         if let Some(k) = known.open.iter().find(|k| k.property == p.id() && k.key == min.key) {
             // minimisation landed on a known case; the unminimised one is still new
             let _ = k;
@@ -543,7 +601,7 @@ pub fn check(p: &dyn Property, thorough: bool, meta: Meta) -> i32 {
         });
         write_json(&path, &file).expect("write replay");
         let mut ok = verify_replay(&vexe, &path);
-        if !ok && min.case["kind"] != "xproc" && min.case["kind"] != "miri" && min.case["kind"] != "env" {
+        if !ok && !has_env && min.case["kind"] != "xproc" && min.case["kind"] != "miri" && min.case["kind"] != "env" {
             // the failure needs the history of its worker process: replay the
             // worker's whole run sequence up to the failing run
             let (nw, total) = if os_variant {
@@ -685,7 +743,18 @@ pub fn replay(props: &[&dyn Property], path: &str) -> i32 {
             return 2;
         }
     };
-    let case = &v["case"];
+    let mut case = &v["case"];
+    // a finding made with an environment variable set: set it before anything runs
+    if let Some(envs) = case.get("env").and_then(|e| e.as_object()) {
+        for (k, val) in envs {
+            std::env::set_var(k, val.as_str().unwrap_or(""));
+        }
+    }
+    if case["kind"] == "with-env" {
+        case = &case["inner"];
+    }
+    let class_owned = class.strip_suffix(":with-environment-variable").unwrap_or(class).to_string();
+    let class = class_owned.as_str();
     if case["kind"] == "env" {
         let exe = std::env::current_exe().unwrap().to_string_lossy().to_string();
         let unset: Vec<String> = case["unset"].as_array().map(|a| a.iter().filter_map(|x| x.as_str().map(|s| s.to_string())).collect()).unwrap_or_default();
